@@ -32,6 +32,11 @@ OPS = [
     ("engine-reuse/convert latex", "E0", NOTES, D, 2),
     ("engine-reuse/parse+export opml", "E1", NOTES, D, 9),
     ("engine-reuse/metadata query", "E2", NOTES, D, 0),
+    # the editor use case: one engine over a caller-owned DString whose text is replaced between conversions
+    ("engine-reuse/german-metadata html", "E0", b"Title: G\nLanguage: de\nQuotes Language: fr\nBase Header Level: 3\nfoo: bar\n\n# H\n\n\"q\" 'r' text[^a] [%foo]\n\n[^a]: n\n", D, 0),
+    ("engine-reuse/bare html", "E0", b"# Head\n\n\"q\" 'r' text[^a] more[#c] [?g] [>ab] -- [%foo] [l]\n\n[^a]: n\n\n[#c]: C\n\n[?g]: G\n\n[>ab]: AB\n\n[l]: http://x.y/\n\n| a |\n|---|\n| b |\n", D, 0),
+    ("engine-reuse/bare latex", "E0", b"Second\n======\n\n\"q\" text[^b] see [Second][]\n\n[^b]: m\n", D, 2),
+    ("engine-reuse/latex-mode-metadata latex", "E0", b"Title: B\nlatex mode: beamer\nlatex header level: 2\n\n# S\n\n## F\n\ntext\n", D, 2),
 ]
 
 def run_history(hist, want_all=False):
@@ -47,13 +52,16 @@ def run_history(hist, want_all=False):
             out = mmd._take(L.vp_raw_to_data(buf, len(src) + 4096, ext, fmt, 0, ASSETS, ctypes.byref(n)), n.value)
             same = (buf.value == src) or bool(ext & (E["PARSE_OPML"] | E["PARSE_ITMZ"]))
         else:
-            if engine is None: engine = L.vp_engine_new(src, ext)
+            if engine is None: engine = L.vp_engine_new_d(src, ext)
+            else: L.vp_engine_set_text(engine, src)
             if kind == "E0": out = mmd._take(L.vp_engine_convert(engine, fmt))
             elif kind == "E1": out = mmd._take(L.vp_engine_parse_export(engine, fmt))
-            else: out = mmd._take(L.vp_engine_query(engine))
+            else:
+                L.vp_engine_parse(engine)            # the text was replaced: the caller re-parses before querying (the query functions only parse an engine that has never been parsed)
+                out = mmd._take(L.vp_engine_query(engine))
             same = L.vp_engine_source(engine) == src
         res.append((out, same))
-    key = STATE() ^ (0 if engine is None else 0x9E3779B97F4A7C15)
+    key = STATE() ^ (0 if engine is None else (0x9E3779B97F4A7C15 ^ L.vp_engine_state(engine)))
     return res, key
 
 STATE = None
@@ -61,6 +69,7 @@ def in_child(fn, *a):
     r, w = os.pipe(); pid = os.fork()
     if pid == 0:
         os.close(r)
+        import signal; signal.alarm(300)          # a conversion that never returns ends as a crash of this history
         try:
             data = pickle.dumps(fn(*a))
         except BaseException as e:
@@ -84,8 +93,8 @@ def run(tier):
     mmd.so_path(); mmd.init_worker()
     STATE, regs = G.hasher()
     rep.rule = ("breadth-first search over conversion histories in one process: %d operations (obfuscated and plain e-mail autolinks, notes/citations/glossary, cross references, metadata + variables, CriticMarkup accept, an OPML source, HTML with assets, EPUB, "
-                "compat mode; through mmd_string_convert, mmd_d_string_convert_to_data and ONE reused engine: convert, parse+export, metadata query); each history runs in a fresh forked process; state key = hash of every writable "
-                "global of the library (inventory from nm on the current objects: %s) + whether the reused engine exists; only new keys are expanded; invariant on every transition: the bytes equal the same conversion done first in a fresh process "
+                "compat mode; through mmd_string_convert, mmd_d_string_convert_to_data and ONE reused engine over a caller-owned text that is replaced between conversions: convert, parse+export, metadata query, documents with and without language/header-level/latex-mode metadata); each history runs in a fresh forked process; state key = hash of every writable "
+                "global of the library (inventory from nm on the current objects: %s) + everything a reused engine carries over (options, languages, stack sizes); only new keys are expanded; invariant on every transition: the bytes equal the same conversion done first in a fresh process "
                 "and the caller's source is unchanged (except the documented OPML replacement)" % (len(OPS), ", ".join(sorted({r[2] for r in regs}))))
     rep.assumptions = ["libc rand() is re-seeded and time() pinned before every conversion: identifiers that are unique by design are outside the statement", "random anchors/labels are not requested"]
     rep.extra["global_inventory"] = [dict(symbol=n, object=o, size=s) for _, s, n, o in regs]
